@@ -484,6 +484,11 @@ def main(run_fn, pid):
         except Exception:
             pass
         code = 1 if ctx.violations else 2
+    except Exception as e:      # a bug in the machinery is never a verdict about the code
+        import traceback
+        traceback.print_exc()
+        print("NO-VERDICT property=%s internal error in the check: %s: %s" % (pid, type(e).__name__, e), flush=True)
+        code = 1 if ctx.violations else 2
     finally:
         ctx.cleanup()
     ctx.log("done: exit %d, %d violation(s), %d known finding(s) hit, %d drift" %
